@@ -72,6 +72,7 @@ def uri_probes(uri_pool, extra_tails=("1", "x/y", ""), alphabet=None, replaced=T
             add(" " + p + "1")
             add(p.swapcase() + "1")
             add(p + "%20?x=1&y=2#frag")
+            add(p + "L" * 300)     # a long identifier
     add("zzz")
     add("\U0001d11e\u0301 ")
     return out
